@@ -168,6 +168,7 @@ type HarnessRun struct {
 	Bounds       map[string]int64
 	Decisions    int
 	UnknownBranches int
+	RetriedUnknown  int // queries the resident solver timed out on and the retry decided
 	Samples      []string
 	IfConverted  int
 	AllocCuts    int
@@ -296,6 +297,24 @@ func (in *Interp) check(extra ...*Term) (Result, map[int]uint64) {
 		}
 	}
 	r, vals, msg := in.solver.Check(as, want)
+	if r == Unknown {
+		// a timeout of the resident solver (typically a loaded machine): one retry in a fresh
+		// z3 5.x process with four times the limit before the query counts as undecided
+		if s2, err := NewSolver(KindZ3New, in.tt, in.solver.timeoutMs*4); err == nil {
+			r2, vals2, _ := s2.Check(as, want)
+			s2.Close()
+			if r2 == Sat || r2 == Unsat {
+				r, vals = r2, vals2
+				in.solver.nUnknown--
+				if r2 == Sat {
+					in.solver.nSat++
+				} else {
+					in.solver.nUnsat++
+				}
+				in.h.RetriedUnknown++
+			}
+		}
+	}
 	if in.crossNext {
 		in.crossNext = false
 		in.crossCheck(as, r)
